@@ -136,6 +136,45 @@ impl<T> Mutex<T> {
     }
 }
 
+impl<T> Mutex<T> {
+    /// Never blocks: fails if the lock is taken (a scheduling point all the same).
+    pub fn try_lock(&self) -> Result<MutexGuard<'_, T>, LockError> {
+        hooks().point("try_lock");
+        match self.inner.try_lock() {
+            Ok(real) => {
+                // the real lock is free, so is the ghost: this admission cannot wait
+                drop(real);
+                self.lock()
+            }
+            Err(_) => Err(LockError("would block")),
+        }
+    }
+}
+
+impl<T> RwLock<T> {
+    pub fn try_read(&self) -> Result<RwLockReadGuard<'_, T>, LockError> {
+        hooks().point("try_read");
+        match self.inner.try_read() {
+            Ok(real) => {
+                drop(real);
+                self.read()
+            }
+            Err(_) => Err(LockError("would block")),
+        }
+    }
+
+    pub fn try_write(&self) -> Result<RwLockWriteGuard<'_, T>, LockError> {
+        hooks().point("try_write");
+        match self.inner.try_write() {
+            Ok(real) => {
+                drop(real);
+                self.write()
+            }
+            Err(_) => Err(LockError("would block")),
+        }
+    }
+}
+
 impl<T> From<T> for Mutex<T> {
     fn from(value: T) -> Self {
         Self::new(value)
@@ -182,6 +221,15 @@ pub struct Condvar {
     _private: (),
 }
 
+#[derive(Debug, Clone, Copy, Eq, PartialEq)]
+pub struct WaitTimeoutResult(bool);
+
+impl WaitTimeoutResult {
+    pub fn timed_out(&self) -> bool {
+        self.0
+    }
+}
+
 impl Condvar {
     pub const fn new() -> Self {
         Self { _private: () }
@@ -211,6 +259,20 @@ impl Condvar {
             guard = self.wait(guard)?;
         }
         Ok(guard)
+    }
+
+    /// There is no clock in the simulation: a timed wait gives up the mutex for one scheduling
+    /// point and then reports a timeout (a timeout may fire at any moment, so this is one of
+    /// the behaviours the real primitive allows).
+    pub fn wait_timeout<'a, T>(
+        &self,
+        guard: MutexGuard<'a, T>,
+        _dur: std::time::Duration,
+    ) -> Result<(MutexGuard<'a, T>, WaitTimeoutResult), LockError> {
+        let mutex = guard.mutex;
+        drop(guard);
+        hooks().point("wait_timeout");
+        Ok((mutex.lock()?, WaitTimeoutResult(true)))
     }
 
     pub fn notify_one(&self) {
@@ -373,11 +435,85 @@ pub mod mpsc_shim {
     }
 }
 
+/// `std::thread::{spawn, sleep, yield_now}` as simulator tasks / scheduling points.
+pub mod thread_shim {
+    use ide::verif_hooks::hooks;
+
+    use super::mpsc_shim;
+
+    pub struct JoinHandle<T>(mpsc_shim::Receiver<T>);
+
+    impl<T> JoinHandle<T> {
+        pub fn join(self) -> std::thread::Result<T> {
+            self.0.recv().map_err(|_| Box::new("task panicked") as Box<dyn std::any::Any + Send>)
+        }
+
+        pub fn is_finished(&self) -> bool {
+            false
+        }
+    }
+
+    pub fn spawn<F, T>(f: F) -> JoinHandle<T>
+    where
+        F: FnOnce() -> T + Send + 'static,
+        T: Send + 'static,
+    {
+        let (tx, rx) = mpsc_shim::channel();
+        hooks().spawn(Box::new(move || {
+            let _ = tx.send(f());
+        }));
+        JoinHandle(rx)
+    }
+
+    pub fn sleep(_dur: std::time::Duration) {
+        hooks().point("sleep");
+    }
+
+    pub fn yield_now() {
+        hooks().point("yield");
+    }
+}
+
+/// Stands in for the name `tokio` inside the lsp crate's modules: `spawn` and
+/// `task::{spawn, spawn_blocking}` run on simulator tasks; everything else (`tokio::sync`, ...)
+/// is the real, executor-independent tokio.
+pub mod tokio_shim {
+    pub use ::tokio::*;
+
+    pub use self::task::spawn;
+
+    pub mod task {
+        pub use crate::verif_hooks::task::{spawn_blocking, JoinHandle};
+        pub use ::tokio::task::*;
+
+        use ::futures::channel::oneshot;
+        use ::ide::verif_hooks::hooks;
+        use ::std::future::Future;
+
+        pub fn spawn<F>(future: F) -> JoinHandle<F::Output>
+        where
+            F: Future + Send + 'static,
+            F::Output: Send + 'static,
+        {
+            let (tx, rx) = oneshot::channel();
+            hooks().spawn_future(Box::pin(async move {
+                let _ = tx.send(future.await);
+            }));
+            JoinHandle::from_receiver(rx)
+        }
+    }
+}
+
 /// Stands in for the name `std` inside the lsp crate's modules (`use ... as std`), so that
 /// `std::sync::{Mutex, RwLock, Condvar, mpsc}` resolve to the shims above however they are spelled
 /// (imported or by full path); everything else is the real `std`.
 pub mod std_shim {
     pub use ::std::*;
+
+    pub mod thread {
+        pub use crate::verif_hooks::thread_shim::{sleep, spawn, yield_now, JoinHandle};
+        pub use ::std::thread::*;
+    }
 
     pub mod sync {
         pub use crate::verif_hooks::{
@@ -405,6 +541,12 @@ pub mod task {
     use ide::verif_hooks::hooks;
 
     pub struct JoinHandle<T>(oneshot::Receiver<T>);
+
+    impl<T> JoinHandle<T> {
+        pub fn from_receiver(rx: oneshot::Receiver<T>) -> Self {
+            JoinHandle(rx)
+        }
+    }
 
     impl<T> Future for JoinHandle<T> {
         type Output = Result<T, oneshot::Canceled>;
